@@ -145,6 +145,16 @@ CLAIMED["C10"] = dict(
     note="Trusted: CrossHair, z3, cvc5, the well-formedness predicate, ref/avp_dictionary.json. Outside: DiameterURI grammar "
          "beyond the scheme, address families other than IPv4/IPv6, floats.")
 
+CLAIMED["C02"] = dict(
+    level="model_checking", technique=E1, design="6/C02",
+    text="Wire images are produced by the reference encoder from a symbolic logical description (all header bytes; per AVP the "
+         "M/P/reserved bits and data; leaf values of dictionary classes; 1-3 concatenated messages; Grouped nesting) and fed to "
+         "the real DiameterMessage.load; CrossHair shows for all contents that the message count/order, every header field, "
+         "each AVP's code/flags/Vendor-ID/data/class and the re-dump equal the description. The re-flagging of known AVPs that "
+         "carry non-default flag bits is an open known finding: its witness is replayed and its region excluded.",
+    note="Trusted: CrossHair, z3, reference encoder, frozen dictionary. Structure (AVP codes, lengths, counts) is a grid "
+         "parameter; unknown (vendor, code) pairs are concrete constants per position. Outside: non-zero padding, > 3 messages.")
+
 PENDING_REASON = "check not built yet in this session (planned in DESIGN.md section 6); no claim is made"
 NOT_APPLICABLE = {}
 
